@@ -32,7 +32,10 @@ func init() {
 			"final version of the list the ids refer to, indices = the three different ids of every triangle. DEL-INPUT: nothing stores into the input list (its appended / sub-sliced versions, its working copies) and no call that can write or " +
 			"permute a slice (sort.Sort, sort.Slice, slices.Sort*, copy into it, a repository function that stores through its slice parameter) receives it on any path, in the pipeline and in both mesh builders. DEL-SAME-POINTS: the list the " +
 			"predicates are evaluated on (and the list a mesh builder hands to the triangulating function) is the input list, an exact copy (append / copy / slices.Clone / element-wise loop), or an element-wise image (a·x + tx, a·y + ty) with ONE " +
-			"factor a for both axes, the same for every point — decided by an affine decomposition of the stored coordinates; per-axis factors that differ (anisotropic normalisation) are a violation. DEL-DEP: the bounding box behind the enclosing triangle reads both coordinates of every input point.",
+			"factor a for both axes, the same for every point — decided by an affine decomposition of the stored coordinates; per-axis factors that differ (anisotropic normalisation) are a violation. DEL-SUPER-FOLD: one iteration of the " +
+			"bounding-box loop, interpreted over every weak ordering of (v, oldMin, oldMax) per axis including oldMin > oldMax, gives newMin = min(v, oldMin) and newMax = max(v, oldMax). DEL-ORIENT-DIFF: every floating-point product taken while the " +
+			"orientation / in-circle predicates are evaluated has operands whose polynomials do not change when all points are moved by one common offset (products of coordinate differences only) — the algebraic form, not the rounding error. " +
+			"DEL-STATE: no function in the same-package call tree of the mesh builders assigns a package-level variable or stores / appends / deletes through a slice, map or pointer loaded from one. DEL-DEP: the bounding box behind the enclosing triangle reads both coordinates of every input point.",
 		Assumptions: []string{
 			"real arithmetic (no rounding); the input is in general position (no three points collinear, no four cocircular, ≥ 3 points), so orientation and in-circle determinants are never 0 and the bounding box of the input has positive width and height",
 			"the rules are necessary conditions only: that the enclosing triangle really encloses every input (its size is a guess in the source), that holes are star-shaped, and the Delaunay / non-overlap property of the result are NOT decided",
@@ -108,6 +111,7 @@ func run(c *props.Ctx) {
 			R.Failf("anchor %s.%s (mesh-building entry point of the triangulation) not found", triRel, name)
 			continue
 		}
+		k.ruleState(r, fn)
 		fs, inl := k.vert(r, fn)
 		for _, f := range fs {
 			if g := P.SSA.FuncValue(f); g != nil && g.Blocks != nil {
@@ -158,6 +162,9 @@ func run(c *props.Ctx) {
 	R.Floor("DEL-HOLE", 2)
 	R.Floor("DEL-INPUT", 2)
 	R.Floor("DEL-SAME-POINTS", 2)
+	R.Floor("DEL-SUPER-FOLD", 1)
+	R.Floor("DEL-ORIENT-DIFF", 1)
+	R.Floor("DEL-STATE", 1)
 	if os.Getenv("C20_DEBUG") != "" {
 		for _, o := range R.Obs {
 			fmt.Printf("  [%s] %-13s %-50s %s %s\n", o.Verdict, o.Rule, o.Construct, o.Msg, fmt.Sprint(o.Facts))
@@ -232,6 +239,7 @@ func (k *K) pipeline(r *rec, g *ssa.Function, preset func(pp *pipe, args []c17.V
 		}
 	}
 	if preset == nil {
+		pp.ruleDiffForm()
 		k.ruleInput(r, pp.sub("input"), pp.pos, pp.res, pp.inputLike, nil, pp.exemptStores())
 	}
 	return pp
